@@ -82,6 +82,9 @@ SUITES["seg3d"] = _seg_suite("seg3d", [1, 2, 2], "D_1x2x2", [2, 1, 3], "S_213", 
 SUITES["seg13n"] = _seg_suite("seg13n", [1, 3], "D_1x3", [1, 1], "S_11", use_scale=False,
                               sample={"quick": 400, "thorough": 4000})
 SUITES["struct4"]["seeds"] = "SeedsStruct4"
+SUITES["struct4"]["simulate"] = {"thorough": (300, 24, 1500)}
+SUITES["struct3"]["simulate"] = {"thorough": (200, 24, 800)}
+SUITES["seg13"]["simulate"] = {"thorough": (150, 14, 800)}
 SUITES["struct4s"] = {
     "tla": {"N": "4", "T": "3", "Dims": "<- D_none", "Scale": "<- S_none"},
     "cfg": {"N": 4, "T": 3, "dims": [], "scale": [], "use_scale": True, "reg_cust": False,
@@ -232,7 +235,8 @@ def _design_run(suite, tier, scratch, prop, log):
 
 def catalogue(suite, tier, scratch, seed, log):
     depth = suite["depth"][tier]
-    full = cached("cat", mc_constants(suite, depth, True), lambda: _catalogue(suite, tier, scratch, log))
+    full = cached("cat", [mc_constants(suite, depth, True), suite.get("simulate", {}).get(tier)],
+                  lambda: _catalogue(suite, tier, scratch, log))
     paths = full["paths"]
     total = len(paths)
     sample = suite.get("sample", {}).get(tier)
@@ -263,8 +267,32 @@ def _catalogue(suite, tier, scratch, log):
         if k not in seen:
             seen.add(k)
             paths.append(p)
-    return {"paths": paths, "info": {"catalogue_states": len(paths), "depth": depth,
-                                     "cat_generated": st["generated"], "wall_s": round(dt, 1)}}
+    info = {"catalogue_states": len(paths), "depth": depth, "cat_generated": st["generated"], "wall_s": round(dt, 1)}
+    sim = suite.get("simulate", {}).get(tier)
+    if sim:
+        # beyond the exhaustive bound: long random behaviours of the MODEL (tlc -simulate); every state on
+        # them is a catalogue state as well (the harness replays the path and fires the alphabet from it)
+        num, sdepth, keep = sim
+        open(cfgp, "w").write(cfg_text_sim(suite, sdepth))
+        out, dt2, rc = tlc.run_tlc("MC.tla", cfgp, scratch, workers=1, tag="sim",
+                                   extra=["-simulate", f"num={num}", "-depth", str(sdepth), "-seed", "7"])
+        longp = []
+        for t in tlc.tuples(out, "CAT"):
+            v = tlc.parse_int_tuples(t)
+            p = v[0] if v else []
+            k = json.dumps(p)
+            if len(p) >= (2 * sdepth) // 3 and k not in seen:
+                seen.add(k)
+                longp.append(p)
+        random.Random(11).shuffle(longp)
+        paths += longp[:keep]
+        info.update({"simulated_behaviours": num, "simulated_depth": sdepth, "simulated_states_used": len(longp[:keep])})
+        info["catalogue_states"] = len(paths)
+    return {"paths": paths, "info": info}
+
+
+def cfg_text_sim(suite, sdepth):
+    return tlc.cfg_text(constants=mc_constants(suite, sdepth, True), invariants=["Emit"], constraint="Bound", view="View")
 
 
 def replay(suite, paths, scratch, nshards):
